@@ -4,7 +4,7 @@
    from /repo (Gen/C14_consts.v).  BigDec values are raw mantissas (x 10^36). *)
 From Coq Require Import ZArith List Bool Lia.
 Import ListNotations.
-From Osmo Require Import Base.DecModel Gen.C14_consts C14.Model C14.ProofsPrice.
+From Osmo Require Import Base.DecModel Gen.C14_consts C14.Model C14.ProofsPrice C14.ProofsSqrt.
 Open Scope Z_scope.
 
 (* the documented geometric/additive formula, exactly, for every tick of the supported range:
@@ -47,3 +47,42 @@ Example C14_price_nonvacuous :
   tick_to_price (-107999999) = Ok 1000001000000000000000000 /\
   tick_to_price 342000000 = Ok MaxSpotPriceBigDec /\ tick_to_price (-9000000) = Ok (P36 / 10).
 Proof. vm_compute. repeat split; intro; discriminate. Qed.
+
+(* ---- tick -> sqrt price ---- *)
+(* non-decreasing over the whole supported range (MinCurrentTickV2 shares the value of MinInitializedTickV2) ... *)
+Theorem C14_tick_to_sqrt_price_mono : forall t1 t2 s1 s2,
+  MinCurrentTickV2 <= t1 -> t1 <= t2 -> t2 <= MaxTick ->
+  tick_to_sqrt_price t1 = Ok s1 -> tick_to_sqrt_price t2 = Ok s2 -> s1 <= s2.
+Proof. exact tick_to_sqrt_price_mono. Qed.
+Print Assumptions C14_tick_to_sqrt_price_mono.
+
+(* ... and in fact strictly increasing on [MinInitializedTickV2, MaxTick], in both precision regimes and across
+   their junction at MinInitializedTick (the 18-digit root separates neighbouring ticks: gap lemma) *)
+Theorem C14_tick_to_sqrt_price_strict_mono : forall t1 t2 s1 s2,
+  MinInitializedTickV2 <= t1 -> t1 < t2 -> t2 <= MaxTick ->
+  tick_to_sqrt_price t1 = Ok s1 -> tick_to_sqrt_price t2 = Ok s2 -> s1 < s2.
+Proof. exact tick_to_sqrt_price_strict_mono. Qed.
+Print Assumptions C14_tick_to_sqrt_price_strict_mono.
+
+(* inside the supported sqrt-price bounds on the swap-reachable range; below MinSqrtPrice (and at least
+   sqrt(10^-30)) on the extended low range *)
+Theorem C14_tick_to_sqrt_price_in_bounds : forall t, MinInitializedTick <= t <= MaxTick ->
+  exists s, tick_to_sqrt_price t = Ok s /\ MinSqrtPriceBigDec <= s <= MaxSqrtPriceBigDec.
+Proof. exact tick_to_sqrt_price_in_bounds. Qed.
+Print Assumptions C14_tick_to_sqrt_price_in_bounds.
+Theorem C14_tick_to_sqrt_price_in_bounds_low : forall t, MinCurrentTickV2 <= t < MinInitializedTick ->
+  exists s, tick_to_sqrt_price t = Ok s /\ 10 ^ 21 <= s < MinSqrtPriceBigDec.
+Proof. exact tick_to_sqrt_price_in_bounds_v2. Qed.
+Print Assumptions C14_tick_to_sqrt_price_in_bounds_low.
+
+Theorem C14_tick_to_sqrt_price_rejects : forall t,
+  (t < MinCurrentTickV2 -> tick_to_sqrt_price t = Err ETickMin) /\ (MaxTick < t -> tick_to_sqrt_price t = Err ETickMax).
+Proof. exact tick_to_sqrt_price_rejects. Qed.
+Print Assumptions C14_tick_to_sqrt_price_rejects.
+
+Example C14_sqrt_nonvacuous :
+  tick_to_sqrt_price (-108000001) = Ok 999999949999998749999937499997 /\      (* 36-digit regime *)
+  tick_to_sqrt_price (-108000000) = Ok MinSqrtPriceBigDec /\                  (* 18-digit regime *)
+  tick_to_sqrt_price (-107999999) = Ok 1000000499999875000000000000000 /\
+  tick_to_sqrt_price 342000000 = Ok MaxSqrtPriceBigDec.
+Proof. vm_compute. repeat split; reflexivity. Qed.
